@@ -21,6 +21,7 @@ package store
 import (
 	"bufio"
 	"encoding/binary"
+	"encoding/json"
 	"errors"
 	"fmt"
 	"io"
@@ -36,6 +37,7 @@ import (
 	"testing"
 	"testing/synctest"
 	"time"
+	"unsafe"
 
 	"github.com/mgtv-tech/redis-GunYu/config"
 	"github.com/mgtv-tech/redis-GunYu/pkg/common"
@@ -98,6 +100,35 @@ func c08Crc(b []byte) uint64 {
 	return c.Sum64()
 }
 
+// c08RuntimeEnd: at RUNTIME (no death) after a fault the cache must not claim stream bytes that
+// are in no file: the end it reports is the end of what the newest segment file holds.
+func c08RuntimeEnd(st *Storer, root, what string) {
+	dir := filepath.Join(root, c08RunId)
+	ents, _ := os.ReadDir(dir)
+	held, found := int64(-1), false
+	for _, e := range ents {
+		if !strings.HasSuffix(e.Name(), ".aof") {
+			continue
+		}
+		l, err := strconv.ParseInt(strings.TrimSuffix(e.Name(), ".aof"), 10, 64)
+		fi, err2 := e.Info()
+		if err != nil || err2 != nil || fi.Size() < headerSize {
+			continue
+		}
+		if end := l + fi.Size() - headerSize; !found || end > held {
+			held, found = end, true
+		}
+	}
+	_, r := st.GetOffsetRange()
+	if ll, _ := st.GetRdb(); r < 0 || (!found && ll >= 0) {
+		return
+	}
+	if !found || r > held {
+		os.WriteFile(filepath.Join(root, "violation.txt"), []byte(fmt.Sprintf(
+			"range-claims-unwritten-bytes|after %s the cache reports its end at %d, the files hold stream bytes up to %d", what, r, held)), 0o644)
+	}
+}
+
 // ---------------------------------------------------------------- child: run the real writers
 
 func TestVerifC08Child(t *testing.T) {
@@ -126,6 +157,14 @@ func TestVerifC08Child(t *testing.T) {
 			st.VerifStopCollector()
 		case "dsetrun":
 			if err := st.SetRunId(f[1]); err != nil {
+				t.Fatal(err)
+			}
+		case "dverify":
+			if _, err := st.VerifyRunId(strings.Split(f[1], ",")); err != nil {
+				t.Fatal(err)
+			}
+		case "ddel":
+			if err := st.DelRunId(f[1]); err != nil {
 				t.Fatal(err)
 			}
 		case "drdbw":
@@ -220,6 +259,95 @@ func TestVerifC08Child(t *testing.T) {
 			aofW = nil
 		case "dgc":
 			st.VerifGcLog()
+
+		// ---- faults. Header rewrite: RLIMIT_FSIZE = k makes the rewrite at offset 0 write k
+		// bytes and fail (EFBIG) — set before Close(), or by the writer's own observer between
+		// the data write and the rotation. Directory operations: the immutable attribute on the
+		// directory makes create / unlink / rename fail (EPERM).
+		case "daofcf":
+			k := num(1)
+			signal.Ignore(syscall.SIGXFSZ)
+			var old syscall.Rlimit
+			syscall.Getrlimit(syscall.RLIMIT_FSIZE, &old)
+			lim := old
+			lim.Cur = uint64(k)
+			syscall.Setrlimit(syscall.RLIMIT_FSIZE, &lim)
+			aofW.Close()
+			syscall.Setrlimit(syscall.RLIMIT_FSIZE, &old)
+			aofW = nil
+			c08RuntimeEnd(st, root, "a close whose header rewrite failed")
+		case "daofaf":
+			k := num(1)
+			signal.Ignore(syscall.SIGXFSZ)
+			var old syscall.Rlimit
+			syscall.Getrlimit(syscall.RLIMIT_FSIZE, &old)
+			restore := c08HookWrite(aofW, func() {
+				lim := old
+				lim.Cur = uint64(k)
+				syscall.Setrlimit(syscall.RLIMIT_FSIZE, &lim)
+			})
+			err := aofW.write(vfutil.UnHex(f[2]))
+			syscall.Setrlimit(syscall.RLIMIT_FSIZE, &old)
+			restore()
+			if err != nil { // the rotation failed: the writer ends as ingest() ends it
+				aofW.Close()
+				aofW = nil
+			}
+			c08RuntimeEnd(st, root, "a rotation whose header rewrite failed")
+		case "daofao":
+			dir := filepath.Join(root, c08RunId)
+			restore := c08HookWrite(aofW, func() {
+				if e := c08SetImmutable(dir, true); e != nil {
+					os.WriteFile(filepath.Join(root, "violation.txt"), []byte("fault-not-injected|immutable attribute: "+e.Error()), 0o644)
+				}
+			})
+			err := aofW.write(vfutil.UnHex(f[1]))
+			c08SetImmutable(dir, false)
+			restore()
+			if err != nil {
+				aofW.Close()
+				aofW = nil
+			}
+			c08RuntimeEnd(st, root, "a rotation whose next segment could not be opened")
+		case "dgcp":
+			// a collector pass in which the removal of SOME segments fails (their files immutable)
+			dir := filepath.Join(root, c08RunId)
+			var stuck []string
+			for _, l := range strings.Split(f[1], ",") {
+				fn := filepath.Join(dir, l+".aof")
+				if _, err := os.Stat(fn); err == nil {
+					if e := c08SetImmutable(fn, true); e != nil {
+						os.WriteFile(filepath.Join(root, "violation.txt"), []byte("fault-not-injected|immutable attribute: "+e.Error()), 0o644)
+					}
+					stuck = append(stuck, fn)
+				}
+			}
+			st.VerifGcLog()
+			for _, fn := range stuck {
+				c08SetImmutable(fn, false)
+			}
+		case "daofcr", "drdbcr", "dgcr":
+			dir := filepath.Join(root, c08RunId)
+			if e := c08SetImmutable(dir, true); e != nil {
+				os.WriteFile(filepath.Join(root, "violation.txt"), []byte("fault-not-injected|immutable attribute: "+e.Error()), 0o644)
+			}
+			switch f[0] {
+			case "daofcr":
+				aofW.Close()
+				aofW = nil
+			case "drdbcr":
+				w := rdbW
+				w.Close()
+				<-w.wait.Context().Done()
+				close(sr.data)
+				sr, rdbW = nil, nil
+			case "dgcr":
+				st.VerifGcLog()
+			}
+			c08SetImmutable(dir, false)
+			if f[0] == "daofcr" {
+				c08RuntimeEnd(st, root, "a close whose removal of the empty segment failed")
+			}
 		}
 	}
 	// the process "dies" here: nothing is closed
@@ -228,29 +356,114 @@ func TestVerifC08Child(t *testing.T) {
 // ---------------------------------------------------------------- file-level operations
 
 type c08Op struct {
-	kind string // create | append | pwrite | truncate | rename | remove
-	name string
-	to   string
-	off  int64 // pwrite: file offset; truncate: new length
-	data []byte
+	kind  string // create | append | pwrite | truncate | rename | remove (fail: create | remove | rename | write)
+	name  string
+	to    string
+	off   int64 // append / pwrite: file offset; truncate: new length
+	data  []byte
+	flags string // create: the open flags (w|rw|r, c = O_CREAT, t = O_TRUNC, a = O_APPEND, x = O_EXCL)
+	fail  bool   // the syscall failed: attempted, no effect on the directory
 }
 
+// String: everything the model states about the operation — name(s), open flags,
+// offset, bytes (hence length), outcome; the order of the lines is the order of the syscalls.
 func (o c08Op) String() string {
+	if o.fail {
+		switch o.kind {
+		case "rename":
+			return "fail rename " + o.name + " " + o.to
+		case "create":
+			return "fail create " + o.name + " " + o.flags
+		case "write":
+			return fmt.Sprintf("fail write %s @%d %s", o.name, o.off, vfutil.Hex(o.data))
+		}
+		return "fail " + o.kind + " " + o.name
+	}
 	switch o.kind {
-	case "create", "remove":
+	case "mkdir", "rmdir":
 		return o.kind + " " + o.name
+	case "rendir":
+		return "rendir " + o.name + " " + o.to
+	case "create":
+		return "create " + o.name + " " + o.flags
+	case "remove":
+		return "remove " + o.name
 	case "rename":
 		return "rename " + o.name + " " + o.to
 	case "truncate":
 		return fmt.Sprintf("truncate %s %d", o.name, o.off)
-	case "pwrite":
-		if o.off != 0 { // the model knows header rewrites (offset 0) only: anything else is a DIFF of the tie
-			return fmt.Sprintf("pwriteat %s %d %s", o.name, o.off, vfutil.Hex(o.data))
-		}
-		return "pwrite " + o.name + " " + vfutil.Hex(o.data)
-	default:
-		return o.kind + " " + o.name + " " + vfutil.Hex(o.data)
+	default: // append | pwrite
+		return fmt.Sprintf("%s %s @%d %s", o.kind, o.name, o.off, vfutil.Hex(o.data))
 	}
+}
+
+// c08OpenFlags renders the access mode and the flags that matter for the content of the file.
+func c08OpenFlags(args string) string {
+	f := "r"
+	if strings.Contains(args, "O_WRONLY") {
+		f = "w"
+	} else if strings.Contains(args, "O_RDWR") {
+		f = "rw"
+	}
+	for _, kv := range [][2]string{{"O_CREAT", "c"}, {"O_TRUNC", "t"}, {"O_APPEND", "a"}, {"O_EXCL", "x"}} {
+		if strings.Contains(args, kv[0]) {
+			f += kv[1]
+		}
+	}
+	return f
+}
+
+// c08SetImmutable sets / clears the immutable attribute of a directory (chattr +i):
+// while it is set, creating, unlinking and renaming entries of the directory fail
+// with EPERM (also for root); files that are already open are written as before.
+func c08SetImmutable(dir string, on bool) error {
+	f, err := os.Open(dir)
+	if err != nil {
+		return err
+	}
+	defer f.Close()
+	var flags int64
+	if _, _, e := syscall.Syscall(syscall.SYS_IOCTL, f.Fd(), 0x80086601, uintptr(unsafe.Pointer(&flags))); e != 0 {
+		return e
+	}
+	if on {
+		flags |= 0x10
+	} else {
+		flags &^= 0x10
+	}
+	if _, _, e := syscall.Syscall(syscall.SYS_IOCTL, f.Fd(), 0x40086602, uintptr(unsafe.Pointer(&flags))); e != 0 {
+		return e
+	}
+	return nil
+}
+
+// c08ImmutableWorks probes whether the file system under tmp supports the attribute.
+func c08ImmutableWorks(tmp string) bool {
+	d := filepath.Join(tmp, "probe")
+	os.MkdirAll(d, 0o777)
+	defer os.RemoveAll(d)
+	os.WriteFile(filepath.Join(d, "a"), []byte("x"), 0o644)
+	if err := c08SetImmutable(d, true); err != nil {
+		return false
+	}
+	defer c08SetImmutable(d, false)
+	if err := os.WriteFile(filepath.Join(d, "b"), []byte("x"), 0o644); err == nil {
+		return false
+	}
+	if err := os.Remove(filepath.Join(d, "a")); err == nil {
+		return false
+	}
+	return true
+}
+
+// c08HookWrite runs f right after the writer's next data write (inside write(), before
+// the rotation: closeAof + openFile), through the writer's own observer.
+func c08HookWrite(w *AofWriter, f func()) (restore func()) {
+	old := w.getObserver()
+	var obs Observer = &observerProxy{open: old.Open, close: old.Close, read: old.Read,
+		write: func(a ...interface{}) { old.Write(a...); f() }}
+	w.observer.Store(&obs)
+	return func() { o := old; w.observer.Store(&o) }
 }
 
 type c08Image map[string][]byte
@@ -264,6 +477,9 @@ func (im c08Image) clone() c08Image {
 }
 
 func (im c08Image) apply(o c08Op) {
+	if o.fail {
+		return
+	}
 	switch o.kind {
 	case "create":
 		im[o.name] = []byte{}
@@ -314,6 +530,73 @@ func (im c08Image) String() string {
 	return strings.Join(parts, ",")
 }
 
+// c08Root: the base directory, one image per replication-id directory.
+type c08Root map[string]c08Image
+
+func (r c08Root) apply(o c08Op) {
+	if o.fail {
+		return
+	}
+	switch o.kind {
+	case "mkdir":
+		if _, ok := r[o.name]; !ok {
+			r[o.name] = c08Image{}
+		}
+	case "rendir":
+		if im, ok := r[o.name]; ok {
+			if _, there := r[o.to]; !there {
+				r[o.to] = im
+				delete(r, o.name)
+			}
+		}
+	case "rmdir":
+		if im, ok := r[o.name]; ok && len(im) == 0 {
+			delete(r, o.name)
+		}
+	default:
+		id, file, ok := strings.Cut(o.name, "/")
+		if !ok {
+			return
+		}
+		if im, there := r[id]; there {
+			q := o
+			q.name = file
+			if _, tf, ok2 := strings.Cut(o.to, "/"); ok2 {
+				q.to = tf
+			}
+			im.apply(q)
+		}
+	}
+}
+
+func (r c08Root) ids() []string {
+	var ids []string
+	for id := range r {
+		ids = append(ids, id)
+	}
+	sort.Strings(ids)
+	return ids
+}
+
+func (r c08Root) String() string {
+	var parts []string
+	for _, id := range r.ids() {
+		parts = append(parts, id+":"+r[id].String())
+	}
+	if len(parts) == 0 {
+		return "."
+	}
+	return strings.Join(parts, ";")
+}
+
+func (r c08Root) clone() c08Root {
+	c := c08Root{}
+	for id, im := range r {
+		c[id] = im.clone()
+	}
+	return c
+}
+
 // ---------------------------------------------------------------- strace
 
 var (
@@ -322,6 +605,8 @@ var (
 	c08RetFdRe = regexp.MustCompile(`=\s*(\d+)<([^>]*)>\s*$`)
 	c08RetNRe  = regexp.MustCompile(`\)\s*=\s*(\d+)\s*$`)
 	c08OkRe    = regexp.MustCompile(`\)\s*=\s*\d+(<[^>]*>)?\s*$`)
+	c08FailRe  = regexp.MustCompile(`\)\s*=\s*-1 E`)
+	c08RelFdRe = regexp.MustCompile(`^\d+<([^>]*)>`)
 )
 
 func c08Unescape(s string) []byte {
@@ -357,7 +642,9 @@ func c08Strings(args string) [][]byte {
 }
 
 // c08ParseTrace turns the strace log into file-level operations on dir.
-func c08ParseTrace(path, dir string) ([]c08Op, error) {
+// multi: dir is the BASE directory; files are named "<id>/<file>", and the directory-level
+// syscalls on the id directories (mkdir, rename, rmdir) are operations of their own.
+func c08ParseTrace(path, dir string, multi bool) ([]c08Op, error) {
 	f, err := os.Open(path)
 	if err != nil {
 		return nil, err
@@ -375,7 +662,19 @@ func c08ParseTrace(path, dir string) ([]c08Op, error) {
 	sizes := map[string]int64{}
 	var ops []c08Op
 	inDir := func(p string) (string, bool) {
+		if multi {
+			if filepath.Dir(filepath.Dir(p)) == dir {
+				return filepath.Base(filepath.Dir(p)) + "/" + filepath.Base(p), true
+			}
+			return "", false
+		}
 		if filepath.Dir(p) == dir {
+			return filepath.Base(p), true
+		}
+		return "", false
+	}
+	idDir := func(p string) (string, bool) { // an id directory of the base directory
+		if multi && filepath.Dir(p) == dir {
 			return filepath.Base(p), true
 		}
 		return "", false
@@ -383,7 +682,7 @@ func c08ParseTrace(path, dir string) ([]c08Op, error) {
 	// whatever write syscall the code uses: the bytes land at an offset of a file
 	writeAt := func(st *fdState, off int64, data []byte) {
 		if off == sizes[st.name] {
-			ops = append(ops, c08Op{kind: "append", name: st.name, data: data})
+			ops = append(ops, c08Op{kind: "append", name: st.name, off: off, data: data})
 		} else {
 			ops = append(ops, c08Op{kind: "pwrite", name: st.name, off: off, data: data})
 		}
@@ -414,9 +713,64 @@ func c08ParseTrace(path, dir string) ([]c08Op, error) {
 			continue
 		}
 		name, args := rest[:p], rest[p+1:]
-		// successful calls only ("= <n>" or "= <fd><path>"; resumed lines pad with blanks)
+		// successful calls ("= <n>" or "= <fd><path>"; resumed lines pad with blanks) change the
+		// directory; FAILED attempts on the directory (= -1 E…) are recorded as such: one entry per
+		// attempted operation (os.Remove / os.RemoveAll try unlink, rmdir, unlinkat again)
 		ok := c08OkRe.MatchString(rest)
 		if !ok {
+			if !c08FailRe.MatchString(rest) {
+				continue
+			}
+			addFail := func(o c08Op) {
+				o.fail = true
+				if n := len(ops); n > 0 && ops[n-1].fail && ops[n-1].kind == o.kind && ops[n-1].name == o.name && ops[n-1].to == o.to {
+					return
+				}
+				ops = append(ops, o)
+			}
+			switch name {
+			case "openat":
+				if strs := c08Strings(args); len(strs) >= 1 && strings.Contains(args, "O_CREAT") {
+					if b, in := inDir(string(strs[0])); in {
+						addFail(c08Op{kind: "create", name: b, flags: c08OpenFlags(args)})
+					}
+				}
+			case "write", "writev", "pwrite64", "pwritev", "pwritev2":
+				if fm := c08FdRe.FindStringSubmatch(args); fm != nil {
+					fd, _ := strconv.Atoi(fm[1])
+					if st := fds[fd]; st != nil {
+						var data []byte
+						for _, b := range c08Strings(args[len(fm[0]):]) {
+							data = append(data, b...)
+						}
+						off := st.off
+						if st.append {
+							off = sizes[st.name]
+						}
+						addFail(c08Op{kind: "write", name: st.name, off: off, data: data})
+					}
+				}
+			case "renameat", "renameat2", "rename":
+				if strs := c08Strings(args); len(strs) >= 2 {
+					a, ina := inDir(string(strs[0]))
+					b, inb := inDir(string(strs[1]))
+					if ina && inb {
+						addFail(c08Op{kind: "rename", name: a, to: b})
+					}
+				}
+			case "unlinkat", "unlink":
+				if strs := c08Strings(args); len(strs) >= 1 {
+					p := string(strs[0])
+					if !filepath.IsAbs(p) {
+						if fm := c08RelFdRe.FindStringSubmatch(args); fm != nil {
+							p = filepath.Join(string(c08Unescape(fm[1])), p)
+						}
+					}
+					if a, in := inDir(p); in {
+						addFail(c08Op{kind: "remove", name: a})
+					}
+				}
+			}
 			continue
 		}
 		retN := int64(-1)
@@ -471,7 +825,7 @@ func c08ParseTrace(path, dir string) ([]c08Op, error) {
 			_, exists := sizes[base]
 			if strings.Contains(args, "O_TRUNC") && (exists || strings.Contains(args, "O_CREAT")) ||
 				strings.Contains(args, "O_CREAT") && !exists {
-				ops = append(ops, c08Op{kind: "create", name: base})
+				ops = append(ops, c08Op{kind: "create", name: base, flags: c08OpenFlags(args)})
 				sizes[base] = 0
 			}
 		case "write", "writev":
@@ -525,6 +879,12 @@ func c08ParseTrace(path, dir string) ([]c08Op, error) {
 				fd, _ := strconv.Atoi(fm[1])
 				delete(fds, fd)
 			}
+		case "mkdir", "mkdirat":
+			if strs := c08Strings(args); len(strs) >= 1 {
+				if id, ok := idDir(string(strs[0])); ok {
+					ops = append(ops, c08Op{kind: "mkdir", name: id})
+				}
+			}
 		case "renameat", "renameat2", "rename":
 			strs := c08Strings(args)
 			if len(strs) >= 2 {
@@ -534,6 +894,17 @@ func c08ParseTrace(path, dir string) ([]c08Op, error) {
 					ops = append(ops, c08Op{kind: "rename", name: a, to: b})
 					sizes[b] = sizes[a]
 					delete(sizes, a)
+				}
+				da, oka := idDir(string(strs[0]))
+				db, okb := idDir(string(strs[1]))
+				if oka && okb {
+					ops = append(ops, c08Op{kind: "rendir", name: da, to: db})
+					for k, v := range sizes {
+						if strings.HasPrefix(k, da+"/") {
+							sizes[db+"/"+strings.TrimPrefix(k, da+"/")] = v
+							delete(sizes, k)
+						}
+					}
 				}
 			}
 		case "unlinkat", "unlink":
@@ -548,6 +919,9 @@ func c08ParseTrace(path, dir string) ([]c08Op, error) {
 				if a, in := inDir(p); in {
 					ops = append(ops, c08Op{kind: "remove", name: a})
 					delete(sizes, a)
+				}
+				if id, ok := idDir(p); ok && strings.Contains(args, "AT_REMOVEDIR") {
+					ops = append(ops, c08Op{kind: "rmdir", name: id})
 				}
 			}
 		}
@@ -595,6 +969,7 @@ func c08ReadAll(rd *Reader, from, right int64) ([]byte, string) {
 }
 
 type c08Parent struct {
+	immutable   bool // the file system supports the immutable attribute (faults on directory operations)
 	s           *vfutil.Session
 	r           *vfutil.Rand
 	tmp         string
@@ -602,6 +977,8 @@ type c08Parent struct {
 	salt        uint64
 	snap        map[string][]byte // name of every snapshot completely written -> bytes
 	big         bool              // production-size script: sample the crash instants
+	light       bool              // long fault script: two torn lengths per write instead of three
+	saltsStr    string            // id scripts: the sources of the id families, for the replay
 	alteredSnap string            // name of the snapshot file altered in the image being re-opened
 	opIdx       int
 }
@@ -636,7 +1013,23 @@ func (p *c08Parent) reopenAlt(im c08Image, verify bool, what string, script stri
 	if verify {
 		v = 1
 	}
-	replay := map[string]interface{}{"image": im.String(), "verify": v, "at": what, "script": script}
+	replay := map[string]interface{}{"image": im.String(), "verify": v, "at": what, "script": script, "salt": p.salt, "salts": p.saltsStr}
+	// the files initDataSet unlinked (TruncateGap's leftovers): what is gone from the directory
+	var removed []string
+	{
+		left := map[string]bool{}
+		ents, _ := os.ReadDir(dir)
+		for _, e := range ents {
+			left[e.Name()] = true
+		}
+		for n := range im {
+			if !left[n] {
+				removed = append(removed, n)
+			}
+		}
+		sort.Strings(removed)
+		p.s.Add("reopen_unlinked_files", len(removed))
+	}
 
 	// probes: edges of the range, one inside, around the snapshot
 	set := map[int64]struct{}{}
@@ -669,7 +1062,7 @@ func (p *c08Parent) reopenAlt(im c08Image, verify bool, what string, script stri
 			bits[i] = '1'
 		}
 	}
-	lines := []string{fmt.Sprintf("range=%d,%d rdb=%d,%d valid=%s", l, r, rl, rs, vfDash(string(bits)))}
+	lines := []string{fmt.Sprintf("range=%d,%d rdb=%d,%d valid=%s removed=%s", l, r, rl, rs, vfDash(string(bits)), vfDash(strings.Join(removed, ",")))}
 
 	// ---- monitor: a snapshot is offered only if it was completely received
 	if rl != -1 || rs != -1 {
@@ -739,6 +1132,27 @@ func (p *c08Parent) reopenAlt(im c08Image, verify bool, what string, script stri
 		if verify && alteredLeft >= 0 && o < alteredRight && o+int64(len(data)) > alteredLeft && len(data) > 0 {
 			p.s.Violate("altered-segment-accepted", fmt.Sprintf("segment %d.aof was altered (%s) but a verifying reader opened at %d delivered %d bytes reaching into it", alteredLeft, what, o, len(data)), replay)
 		}
+		// ---- monitor: with verification on, nothing is delivered from a segment whose file does
+		// not match its recorded size / CRC64 (a new process: no segment has a writer)
+		if verify && len(data) > 0 {
+			gone := map[string]bool{}
+			for _, n := range removed {
+				gone[n] = true // cut off by TruncateGap: not in the index, nothing is served from it
+			}
+			for name, b := range im {
+				if !strings.HasSuffix(name, ".aof") || len(b) <= headerSize || c08SegOk(b) || gone[name] {
+					continue
+				}
+				sl, err := strconv.ParseInt(strings.TrimSuffix(name, ".aof"), 10, 64)
+				if err != nil {
+					continue
+				}
+				if sr := sl + int64(len(b)-headerSize); o < sr && o+int64(len(data)) > sl {
+					p.s.Violate("mismatching-segment-served", fmt.Sprintf("segment %s does not match its recorded size/checksum, a verifying reader opened at %d delivered %d bytes reaching into it", name, o, len(data)), replay)
+					break
+				}
+			}
+		}
 		// ---- monitor: the reported range is one contiguous range of held bytes
 		if !verify && (end != "eof" || int64(len(data)) != r-o) {
 			p.s.Violate("range-not-contiguous", fmt.Sprintf("range [%d,%d] reported, reading from %d gave %d bytes and ended with %s", l, r, o, len(data), end), replay)
@@ -795,6 +1209,231 @@ func (p *c08Parent) genBigScript(r *vfutil.Rand) string {
 	return strings.Join(ops, " ; ")
 }
 
+// genFaultScript: every kind of fault at least once per script, each followed by further
+// steps of the writers (the orphans and pinned segments a fault leaves must not disturb them).
+func (p *c08Parent) genFaultScript(r *vfutil.Rand) string {
+	logSize := int64(vfutil.Pick(r, []int{32, 48, 64}))
+	ops := []string{fmt.Sprintf("dnew %d %d", logSize, logSize), "dsetrun " + c08RunId}
+	p.snap = map[string][]byte{}
+	right := int64(100 + r.Intn(900))
+	room := int(logSize - headerSize) // data bytes a segment takes without rotating
+	seg := func(n int) string {
+		h := vfutil.Hex(c08SrcSeg(p.salt, right, n))
+		right += int64(n)
+		return h
+	}
+	open := func() { ops = append(ops, fmt.Sprintf("daofw %d", right)) }
+	// rotations, then a collector pass in which SOME removals fail, one in which all fail, then
+	// one that works (before any header fault: a segment whose close observer never ran pins
+	// the collector for ever)
+	open()
+	lefts := []string{strconv.FormatInt(right, 10)}
+	for i := 0; i < 4; i++ {
+		ops = append(ops, "daofa "+seg(room+1))
+		lefts = append(lefts, strconv.FormatInt(right, 10))
+	}
+	if p.immutable {
+		var stuck []string
+		for _, l := range lefts[:3] {
+			if r.Bool() {
+				stuck = append(stuck, l)
+			}
+		}
+		if len(stuck) == 0 {
+			stuck = lefts[1:2]
+		}
+		ops = append(ops, "dgcp "+strings.Join(stuck, ","))
+		p.s.Count("fault_gc_remove_partial")
+		ops = append(ops, "daofa "+seg(room+1), "dgcr")
+	}
+	ops = append(ops, "daofa "+seg(room+1), "dgc")
+	// a rotation whose header rewrite fails after k bytes; the stream goes on with a new writer
+	ops = append(ops, "daofa "+seg(1+r.Intn(room/2)))
+	ops = append(ops, fmt.Sprintf("daofaf %d %s", r.Intn(16), seg(room)))
+	open()
+	ops = append(ops, "daofa "+seg(1+r.Intn(room/2)))
+	if p.immutable {
+		// a rotation whose next segment cannot be opened
+		ops = append(ops, "daofao "+seg(room))
+		// an empty live segment whose removal fails; the next writer re-creates the file
+		open()
+		ops = append(ops, "daofcr")
+	} else {
+		ops = append(ops, "daofc")
+	}
+	// the pinned segment: the collector removes nothing any more
+	open()
+	ops = append(ops, "daofa "+seg(room+1), "daofa "+seg(room+1), "dgc")
+	// a close whose header rewrite fails
+	ops = append(ops, "daofa "+seg(1+r.Intn(room/2)), fmt.Sprintf("daofcf %d", r.Intn(16)))
+	// a short write
+	open()
+	c := 2 + r.Intn(room/2)
+	ops = append(ops, fmt.Sprintf("daofx %d %s", 1+r.Intn(c-1), vfutil.Hex(c08SrcSeg(p.salt, right, c))))
+	// (right is not advanced by the short write's bytes: a new snapshot follows)
+	// a snapshot cut short whose temporary file cannot be removed, then the same snapshot complete
+	left := right + int64(r.Intn(50))
+	size := int64(9 + r.Intn(40))
+	b := c08Snap(p.salt, left, size)
+	ops = append(ops, fmt.Sprintf("drdbw %d %d", left, size), "drdba "+vfutil.Hex(b[:size/2]))
+	if p.immutable {
+		ops = append(ops, "drdbcr")
+	} else {
+		ops = append(ops, "drdbc")
+	}
+	ops = append(ops, fmt.Sprintf("drdbw %d %d", left, size), "drdba "+vfutil.Hex(b[:size/2]), "drdba "+vfutil.Hex(b[size/2:]))
+	p.snap[fmt.Sprintf("%d_%d.rdb", left, size)] = b
+	right = left
+	open()
+	ops = append(ops, "daofa "+seg(1+r.Intn(room/2)), "daofa "+seg(room), "dgc")
+	if r.Bool() {
+		ops = append(ops, "daofc")
+	}
+	return strings.Join(ops, " ; ")
+}
+
+// genIdScript: two independent histories (ids a*, b*), lives of the writers in their
+// directories, a new process choosing among several ids, an id change (directory renamed),
+// switches between existing ids, deletions, a directory re-created.
+func (p *c08Parent) genIdScript(r *vfutil.Rand) (string, map[byte]uint64) {
+	salts := map[byte]uint64{'a': r.U64() % 1000000, 'b': r.U64() % 1000000}
+	logSize := vfutil.Pick(r, []int{32, 48, 64})
+	var ops []string
+	rights := map[string]int64{}
+	stream := func(id string, n int) {
+		right := rights[id]
+		ops = append(ops, fmt.Sprintf("daofw %d", right))
+		for i := 0; i < n; i++ {
+			c := 3 + r.Intn(logSize)
+			ops = append(ops, "daofa "+vfutil.Hex(c08SrcSeg(salts[id[0]], right, c)))
+			right += int64(c)
+		}
+		switch r.Intn(4) {
+		case 0:
+			ops = append(ops, fmt.Sprintf("daofcf %d", r.Intn(16)))
+		case 1:
+			// nothing closed: the next operation finds the writer open (a new process, or a switch)
+			ops = append(ops, "daofc")
+		default:
+			ops = append(ops, "daofc")
+		}
+		rights[id] = right
+	}
+	newProc := func() { ops = append(ops, fmt.Sprintf("dnew %d 0", logSize)) }
+	newProc()
+	ops = append(ops, "dsetrun a")
+	rights["a"] = int64(100 + r.Intn(900))
+	stream("a", 2+r.Intn(3))
+	newProc()
+	ops = append(ops, "dsetrun b")
+	rights["b"] = int64(5000 + r.Intn(900))
+	stream("b", 2+r.Intn(3))
+	newProc()
+	ops = append(ops, "dverify ?,zz,a,b") // a is taken
+	stream("a", 1+r.Intn(2))
+	ops = append(ops, "dsetrun a2") // the id changes: directory a renamed to a2
+	rights["a2"] = rights["a"]
+	delete(rights, "a")
+	stream("a2", 1+r.Intn(2))
+	ops = append(ops, "dsetrun b") // an existing id: switch, re-scan
+	stream("b", 1+r.Intn(2))
+	ops = append(ops, "dsetrun a2")
+	if r.Bool() {
+		stream("a2", 1)
+	}
+	ops = append(ops, "ddel a2") // the current id's directory goes, entry by entry
+	ops = append(ops, "dsetrun a") // no current id: a new directory
+	rights["a"] = int64(100 + r.Intn(900))
+	stream("a", 1+r.Intn(2))
+	newProc()
+	ops = append(ops, "dverify zz,b,a") // b is taken
+	stream("b", 1)
+	ops = append(ops, "ddel a", "ddel zz")
+	return strings.Join(ops, " ; "), salts
+}
+
+// idCrashImages: every prefix of the syscalls on the base directory is a base directory a new
+// process may find; every id directory of it is re-opened by the real code (compared with the
+// model, monitored against ITS id's source), and VerifyRunId picks among the ids.
+func (p *c08Parent) idCrashImages(ops []c08Op, script string, salts map[byte]uint64) {
+	root := c08Root{}
+	step := 0
+	check := func(what string) {
+		for _, id := range root.ids() {
+			p.salt = salts[id[0]]
+			p.reopen(root[id].clone(), false, what, script)
+			if step%2 == 0 {
+				p.reopen(root[id].clone(), true, what, script)
+			}
+		}
+		if len(root) >= 2 && step%3 == 0 {
+			p.verifyIds(root, script)
+		}
+		step++
+	}
+	for _, o := range ops {
+		if o.fail {
+			continue
+		}
+		if (o.kind == "append" || o.kind == "pwrite") && len(o.data) > 1 {
+			torn := root.clone()
+			q := o
+			q.data = o.data[:len(o.data)/2]
+			torn.apply(q)
+			saved := root
+			root = torn
+			check("id_torn")
+			root = saved
+		}
+		root.apply(o)
+		check("id_prefix")
+		if o.kind == "rendir" || o.kind == "rmdir" || o.kind == "mkdir" {
+			p.s.Count("id_sys_" + o.kind)
+		}
+	}
+}
+
+// verifyIds: a new process calls VerifyRunId with several ids on a copy of the base directory.
+func (p *c08Parent) verifyIds(root c08Root, script string) {
+	p.n++
+	base := filepath.Join(p.tmp, fmt.Sprintf("v%d", p.n))
+	for id, im := range root {
+		os.MkdirAll(filepath.Join(base, id), 0o777)
+		for n, b := range im {
+			os.WriteFile(filepath.Join(base, id, n), b, 0o666)
+		}
+	}
+	defer os.RemoveAll(base)
+	ids := root.ids()
+	if p.r.Bool() { // the order of the ids asked for decides
+		for i, j := 0, len(ids)-1; i < j; i, j = i+1, j-1 {
+			ids[i], ids[j] = ids[j], ids[i]
+		}
+	}
+	ask := append([]string{"?", "zz"}, ids...)
+	st := NewStorer("vf", base, 0, 1<<20, config.FlushPolicy{})
+	st.VerifStopCollector()
+	off, err := st.VerifyRunId(ask)
+	if err != nil {
+		p.s.Violate("verify-runid-failed", err.Error(), map[string]interface{}{"root": root.String(), "ids": strings.Join(ask, ","), "script": script})
+		return
+	}
+	chosen := "-"
+	if off != 0 {
+		chosen = st.RunId()
+	}
+	line := fmt.Sprintf("#%d chosen=%s cur=%s latest=%d", p.opIdx, chosen, vfDash(st.RunId()), off)
+	p.opIdx++
+	p.s.Op(fmt.Sprintf("c8V - %s %s", strings.Join(ask, ","), root.String()), line)
+	p.s.Count("verify_run_ids")
+	// the id taken is one that was asked for and has a directory
+	if chosen != "-" {
+		if _, ok := root[chosen]; !ok {
+			p.s.Violate("verify-runid-wrong-id", fmt.Sprintf("VerifyRunId(%s) took %q, which has no directory", strings.Join(ask, ","), chosen), map[string]interface{}{"root": root.String(), "script": script})
+		}
+	}
+}
+
 func (p *c08Parent) genScript(r *vfutil.Rand) (string, int64, int64) {
 	logSize := int64(vfutil.Pick(r, []int{24, 32, 48, 64}))
 	maxSize := logSize * int64(2+r.Intn(4))
@@ -818,9 +1457,13 @@ func (p *c08Parent) genScript(r *vfutil.Rand) (string, int64, int64) {
 			// how the snapshot ends: 0 complete; 1 cut short and closed; 2 the LAST
 			// chunk is received but the writer is stopped before writing it; 3 the
 			// last chunk's file write fails; 4/5 the same for an earlier chunk
+			// 6: cut short and closed while the temporary file cannot be removed
 			mode := 0
 			if r.Chance(1, 2) {
 				mode = 1 + r.Intn(5)
+				if p.immutable && r.Chance(1, 4) {
+					mode = 6
+				}
 			}
 			var chunks [][]byte
 			for at := int64(0); at < size; {
@@ -832,11 +1475,15 @@ func (p *c08Parent) genScript(r *vfutil.Rand) (string, int64, int64) {
 			for i, c := range chunks {
 				last := i == len(chunks)-1
 				switch {
-				case mode == 1 && last:
+				case (mode == 1 || mode == 6) && last:
 					if len(c) > 1 {
 						ops = append(ops, "drdba "+vfutil.Hex(c[:len(c)-1]))
 					}
-					ops = append(ops, "drdbc")
+					if mode == 6 {
+						ops = append(ops, "drdbcr")
+					} else {
+						ops = append(ops, "drdbc")
+					}
 					done = true
 				case mode == 2 && last, mode == 4 && (i == len(chunks)/2):
 					ops = append(ops, "drdbx "+vfutil.Hex(c))
@@ -887,6 +1534,33 @@ func (p *c08Parent) genScript(r *vfutil.Rand) (string, int64, int64) {
 				p.s.Count("aof_short_writes")
 				break
 			}
+			if r.Chance(1, 6) {
+				// a fault at the rotation: the header rewrite fails after hk bytes, or the next
+				// segment cannot be opened; half of the chunks cross the limit (the fault
+				// strikes, the writer ends), the others do not (an ordinary append)
+				room := logSize - headerSize - fill
+				c = int(room) + 1 + r.Intn(5)
+				cross := true
+				if room >= 1 && r.Chance(1, 3) {
+					c = 1 + r.Intn(int(room))
+					cross = false
+				}
+				if p.immutable && r.Bool() {
+					ops = append(ops, "daofao "+vfutil.Hex(c08SrcSeg(p.salt, right, c)))
+					p.s.Count(fmt.Sprintf("fault_rotation_open_cross_%v", cross))
+				} else {
+					ops = append(ops, fmt.Sprintf("daofaf %d %s", r.Intn(16), vfutil.Hex(c08SrcSeg(p.salt, right, c))))
+					p.s.Count(fmt.Sprintf("fault_rotation_header_cross_%v", cross))
+				}
+				right += int64(c)
+				if cross {
+					aofOpen = false
+					fill = 0
+				} else {
+					fill += int64(c)
+				}
+				break
+			}
 			ops = append(ops, "daofa "+vfutil.Hex(c08SrcSeg(p.salt, right, c)))
 			right += int64(c)
 			fill += int64(c)
@@ -895,11 +1569,25 @@ func (p *c08Parent) genScript(r *vfutil.Rand) (string, int64, int64) {
 			}
 		case k < 80:
 			if aofOpen {
-				ops = append(ops, "daofc")
+				switch f := r.Intn(6); {
+				case f == 0:
+					ops = append(ops, fmt.Sprintf("daofcf %d", r.Intn(16)))
+					p.s.Count(fmt.Sprintf("fault_close_header_empty_%v", fill == 0))
+				case f == 1 && p.immutable:
+					ops = append(ops, "daofcr")
+					p.s.Count(fmt.Sprintf("fault_close_remove_empty_%v", fill == 0))
+				default:
+					ops = append(ops, "daofc")
+				}
 				aofOpen = false
 			}
 		default:
-			ops = append(ops, "dgc")
+			if p.immutable && r.Chance(1, 3) {
+				ops = append(ops, "dgcr")
+				p.s.Count("fault_gc_remove")
+			} else {
+				ops = append(ops, "dgc")
+			}
 		}
 	}
 	return strings.Join(ops, " ; "), logSize, maxSize
@@ -912,6 +1600,12 @@ func TestVerifC08(t *testing.T) {
 		t.Fatalf("C08 harness infrastructure (no statement about the cache): strace is not available, the syscall-level tie cannot run")
 	}
 	p := &c08Parent{s: s, r: vfutil.NewRand(vfutil.Seed() + 8), tmp: t.TempDir()}
+	p.immutable = c08ImmutableWorks(p.tmp)
+	if p.immutable {
+		s.Count("fault_injection_immutable_dir")
+	} else {
+		s.Count("note_fault_injection_immutable_dir_unsupported")
+	}
 	cur := ""
 	wd := vfWatchdog(s, time.Duration(vfutil.Scale(150, 1500))*time.Second, func() string { return cur })
 	defer wd.Stop()
@@ -921,29 +1615,71 @@ func TestVerifC08(t *testing.T) {
 	// of the harness' infrastructure (strace, the child process, the trace parser),
 	// never a behaviour of the cache: it is retried and then reported as a broken
 	// tie (test failure), not as a violation with a failing input.
-	runChild := func(script string) (ops []c08Op, viol string, err error) {
-		root := filepath.Join(p.tmp, fmt.Sprintf("w%d", p.n))
+	runChild := func(script string, multi bool) (ops []c08Op, viol string, err error) {
+		top := filepath.Join(p.tmp, fmt.Sprintf("w%d", p.n))
 		p.n++
+		root := filepath.Join(top, "base") // the store's base directory (nothing else lives in it)
 		os.MkdirAll(root, 0o777)
-		defer os.RemoveAll(root)
-		trace := filepath.Join(root, "trace.txt")
-		scriptFile := filepath.Join(root, "script.txt") // not in the environment: one env string is limited to 128 KiB
+		defer os.RemoveAll(top)
+		defer func() { // a child that died in the middle of a fault: nothing may stay immutable
+			c08SetImmutable(filepath.Join(root, c08RunId), false)
+			if ents, err := os.ReadDir(filepath.Join(root, c08RunId)); err == nil {
+				for _, e := range ents {
+					c08SetImmutable(filepath.Join(root, c08RunId, e.Name()), false)
+				}
+			}
+		}()
+		trace := filepath.Join(top, "trace.txt")
+		scriptFile := filepath.Join(top, "script.txt") // not in the environment: one env string is limited to 128 KiB
 		if err := os.WriteFile(scriptFile, []byte(script), 0o644); err != nil {
 			return nil, "", err
 		}
 		cmd := exec.Command("strace", "-f", "-y", "-s", "1000000", "-xx",
-			"-e", "trace=openat,write,writev,pwrite64,pwritev,pwritev2,ftruncate,lseek,close,rename,renameat,renameat2,unlink,unlinkat",
+			"-e", "trace=openat,write,writev,pwrite64,pwritev,pwritev2,ftruncate,lseek,close,rename,renameat,renameat2,unlink,unlinkat,mkdir,mkdirat",
 			"-o", trace, os.Args[0], "-test.run", "^TestVerifC08Child$")
 		cmd.Env = append(os.Environ(), "VERIF_C08_CHILD=1", "VERIF_C08_ROOT="+root, "VERIF_C08_SCRIPT_FILE="+scriptFile,
-			"VERIF_OUT="+filepath.Join(root, "out"))
+			"VERIF_OUT="+filepath.Join(top, "out"))
 		if out, err := cmd.CombinedOutput(); err != nil {
 			return nil, "", fmt.Errorf("child failed: %v: %s", err, out)
 		}
 		if b, err := os.ReadFile(filepath.Join(root, "violation.txt")); err == nil {
 			viol = string(b)
 		}
+		if multi {
+			ops, err = c08ParseTrace(trace, root, true)
+			if err != nil {
+				return nil, "", fmt.Errorf("trace not parsed: %v", err)
+			}
+			// sanity of trace and parser, for the whole base directory
+			rim := c08Root{}
+			for _, o := range ops {
+				rim.apply(o)
+			}
+			real := c08Root{}
+			ents, _ := os.ReadDir(root)
+			for _, e := range ents {
+				if !e.IsDir() {
+					continue
+				}
+				im := c08Image{}
+				fents, _ := os.ReadDir(filepath.Join(root, e.Name()))
+				for _, fe := range fents {
+					b, _ := os.ReadFile(filepath.Join(root, e.Name(), fe.Name()))
+					im[fe.Name()] = b
+				}
+				real[e.Name()] = im
+			}
+			if rim.String() != real.String() {
+				if keep := os.Getenv("VERIF_C08_KEEP"); keep != "" {
+					b, _ := os.ReadFile(trace)
+					os.WriteFile(keep, b, 0o644)
+				}
+				return nil, "", fmt.Errorf("the parsed trace does not reproduce the base directory the child left: trace %d directories, real %d", len(rim), len(real))
+			}
+			return ops, viol, nil
+		}
 		dir := filepath.Join(root, c08RunId)
-		ops, err = c08ParseTrace(trace, dir)
+		ops, err = c08ParseTrace(trace, dir, false)
 		if err != nil {
 			return nil, "", fmt.Errorf("trace not parsed: %v", err)
 		}
@@ -990,7 +1726,7 @@ func TestVerifC08(t *testing.T) {
 		var viol string
 		var err error
 		for attempt := 0; attempt < 3; attempt++ {
-			if ops, viol, err = runChild(script); err == nil {
+			if ops, viol, err = runChild(script, false); err == nil {
 				break
 			}
 			s.Count("infra_retries")
@@ -1007,14 +1743,16 @@ func TestVerifC08(t *testing.T) {
 				t.Errorf("C08 harness infrastructure (no statement about the cache): %s", kv[1])
 				return
 			}
-			s.Violate(kv[0], kv[1], map[string]interface{}{"script": script})
+			s.Violate(kv[0], kv[1], map[string]interface{}{"script": script, "salt": salt})
 		}
 		// (1) the writers' file operations, op for op
 		lines := make([]string, len(ops))
 		for i, o := range ops {
 			lines[i] = o.String()
 		}
-		lines = append(lines, "end")
+		// the model checks that the script meets the theorems' hypotheses (wfX, SrcOkX for this source)
+		lines = append(lines, "hyp wf=1 src=1", "end")
+		s.Count("scripts_hypotheses_checked")
 		for i := range lines {
 			lines[i] = fmt.Sprintf("#%d %s", p.opIdx, lines[i])
 		}
@@ -1027,6 +1765,80 @@ func TestVerifC08(t *testing.T) {
 		synctest.Test(t, func(t *testing.T) { p.crashImages(ops, script) })
 	}
 
+	// several replication-id directories: SetRunId (mkdir / rename / switch), VerifyRunId, DelRunId
+	runIdCase := func(script string, salts map[byte]uint64) {
+		cur = script
+		var ops []c08Op
+		var err error
+		for attempt := 0; attempt < 3; attempt++ {
+			if ops, _, err = runChild(script, true); err == nil {
+				break
+			}
+			s.Count("infra_retries")
+		}
+		if err != nil {
+			s.Count("infra_failures")
+			t.Errorf("C08 harness infrastructure (no statement about the cache): %v", err)
+			return
+		}
+		// RemoveAll unlinks in readdir order: the run of removals before a rmdir is compared as a set
+		lines := make([]string, len(ops))
+		for i, o := range ops {
+			lines[i] = o.String()
+		}
+		for i, o := range ops {
+			if o.kind == "rmdir" && !o.fail {
+				j := i
+				for j > 0 && ops[j-1].kind == "remove" && !ops[j-1].fail && strings.HasPrefix(ops[j-1].name, o.name+"/") {
+					j--
+				}
+				sort.Strings(lines[j:i])
+			}
+		}
+		lines = append(lines, "hyp wf=1 src=1", "end")
+		s.Count("scripts_hypotheses_checked")
+		for i := range lines {
+			lines[i] = fmt.Sprintf("#%d %s", p.opIdx, lines[i])
+		}
+		p.opIdx++
+		s.Op(fmt.Sprintf("c8d a=%d,b=%d %s", salts['a'], salts['b'], script), lines...)
+		s.Add("id_file_ops", len(ops))
+		s.Count("scripts_ids")
+		p.snap = map[string][]byte{}
+		p.saltsStr = fmt.Sprintf("a=%d,b=%d", salts['a'], salts['b'])
+		synctest.Test(t, func(t *testing.T) { p.idCrashImages(ops, script, salts) })
+		p.saltsStr = ""
+	}
+	// ./check C08 --replay FILE: the script of the replay only (with its source function)
+	if rp := os.Getenv("VERIF_REPLAY"); rp != "" {
+		var doc struct {
+			Replay map[string]interface{} `json:"replay"`
+		}
+		b, _ := os.ReadFile(rp)
+		json.Unmarshal(b, &doc)
+		script, _ := doc.Replay["script"].(string)
+		if script == "" {
+			t.Fatalf("replay %s carries no script", rp)
+		}
+		if ss, _ := doc.Replay["salts"].(string); ss != "" {
+			salts := map[byte]uint64{}
+			for _, kv := range strings.Split(ss, ",") {
+				if k, v, ok := strings.Cut(kv, "="); ok && len(k) == 1 {
+					salts[k[0]], _ = strconv.ParseUint(v, 10, 64)
+				}
+			}
+			runIdCase(script, salts)
+			return
+		}
+		salt := uint64(0)
+		if f, ok := doc.Replay["salt"].(float64); ok {
+			salt = uint64(f)
+		}
+		p.snap = map[string][]byte{}
+		c08ScanSnaps(script, p.snap)
+		runCase(script, salt, "replay")
+		return
+	}
 	for _, l := range vfutil.Corpus("C08") {
 		f := strings.SplitN(l, " ", 2)
 		if len(f) == 2 {
@@ -1037,7 +1849,7 @@ func TestVerifC08(t *testing.T) {
 			runCase(f[1], salt, "corpus")
 		}
 	}
-	cases := vfutil.Scale(12, 150)
+	cases := vfutil.Scale(10, 150)
 	if v, err := strconv.Atoi(os.Getenv("VERIF_CASES")); err == nil {
 		cases = v
 	}
@@ -1046,6 +1858,17 @@ func TestVerifC08(t *testing.T) {
 		p.salt = salt
 		script, _, _ := p.genScript(p.r)
 		runCase(script, salt, "gen")
+	}
+	for c := 0; c < vfutil.Scale(2, 12); c++ {
+		salt := p.r.U64() % 1000000
+		p.salt = salt
+		p.light = true
+		runCase(p.genFaultScript(p.r), salt, "faults")
+		p.light = false
+	}
+	for c := 0; c < vfutil.Scale(2, 12); c++ {
+		script, salts := p.genIdScript(p.r)
+		runIdCase(script, salts)
 	}
 	for c := 0; c < vfutil.Scale(1, 6); c++ {
 		salt := p.r.U64() % 1000000
@@ -1057,28 +1880,53 @@ func TestVerifC08(t *testing.T) {
 	_ = io.EOF
 }
 
+// modelImage: the MODEL's crash image for the same instant (n operations took effect, the
+// last one torn after k bytes) must be the directory image built from the real syscalls.
+func (p *c08Parent) modelImage(n, k int, im c08Image, script string) {
+	p.s.Op(fmt.Sprintf("c8i %d %d", n, k), fmt.Sprintf("#%d %s", p.opIdx, im.String())) // of the last c8w script
+	p.opIdx++
+	p.s.Count("model_crash_images")
+}
+
 func (p *c08Parent) crashImages(ops []c08Op, script string) {
 	s := p.s
 	{
 		im := c08Image{}
 		p.reopen(im.clone(), false, "prefix", script)
+		okN := 0
 		for i, o := range ops {
+			if o.fail {
+				s.Count("failed_attempts_" + o.kind)
+				continue
+			}
+			okN++
 			if (o.kind == "append" || o.kind == "pwrite") && len(o.data) > 1 {
 				cuts := []int{1, len(o.data) / 2, len(o.data) - 1}
 				if p.big {
 					cuts = []int{len(o.data) / 2}
+				} else if p.light {
+					cuts = []int{1, len(o.data) / 2}
 				}
 				for _, k := range cuts {
 					if k <= 0 || k >= len(o.data) {
 						continue
 					}
 					torn := im.clone()
-					torn.apply(c08Op{kind: o.kind, name: o.name, data: o.data[:k]})
+					torn.apply(c08Op{kind: o.kind, name: o.name, off: o.off, data: o.data[:k]})
+					if o.kind == "pwrite" {
+						s.Count("torn_header_rewrites")
+					}
+					if !p.big || okN%7 == 0 {
+						p.modelImage(okN, k, torn, script)
+					}
 					p.reopen(torn, false, "torn", script)
 					p.reopen(torn, true, "torn", script)
 				}
 			}
 			im.apply(o)
+			if !p.big || okN%7 == 0 || i == len(ops)-1 {
+				p.modelImage(okN, 1<<30, im, script)
+			}
 			p.reopen(im.clone(), false, "prefix", script)
 			if !p.big || i%3 == 0 || i == len(ops)-1 {
 				p.reopen(im.clone(), true, "prefix", script)
@@ -1162,6 +2010,86 @@ func (p *c08Parent) crashImages(ops []c08Op, script string) {
 	}
 }
 
+// c08SegOk: the recorded size and CRC64 of a segment file match its content.
+func c08SegOk(b []byte) bool {
+	if len(b) < headerSize {
+		return false
+	}
+	return int64(binary.LittleEndian.Uint32(b[9:13])) == int64(len(b)-headerSize) &&
+		binary.LittleEndian.Uint64(b[1:9]) == c08Crc(b[headerSize:])
+}
+
+// verifyLive: verifying readers on the LIVE index (writer w attached): closed segments are
+// verified wherever the reader meets them, the writer's segment is not. Compared with the model
+// (serveFromL) on the directory as it is; alteredLeft >= 0 names a closed segment that was altered.
+func (p *c08Parent) verifyLive(st *Storer, w *AofWriter, dir, script, what string, alteredLeft int64, zombies ...int64) {
+	l, r := st.GetOffsetRange()
+	if l < 0 || r <= l {
+		return
+	}
+	im := c08Image{}
+	ents, _ := os.ReadDir(dir)
+	for _, e := range ents {
+		b, _ := os.ReadFile(filepath.Join(dir, e.Name()))
+		im[e.Name()] = b
+	}
+	replay := map[string]interface{}{"image": im.String(), "at": what, "script": script, "live": w.left, "salt": p.salt}
+	set := map[int64]struct{}{}
+	cand := []int64{l, l + 1, (l + r) / 2, r - 1, w.left - 1, w.left, w.left + 1, alteredLeft - 1, alteredLeft, alteredLeft + 1}
+	for _, z := range zombies {
+		cand = append(cand, z-1, z, z+1)
+	}
+	for _, o := range cand {
+		if o >= l && o < r {
+			set[o] = struct{}{}
+		}
+	}
+	var probes []int64
+	for o := range set {
+		probes = append(probes, o)
+	}
+	sort.Slice(probes, func(i, j int) bool { return probes[i] < probes[j] })
+	var lines, ps []string
+	for _, o := range probes {
+		ps = append(ps, strconv.FormatInt(o, 10))
+		rd, err := st.GetReader(o, true)
+		if err != nil {
+			lines = append(lines, fmt.Sprintf("read %d err %s", o, c08ErrClass(err)))
+			continue
+		}
+		if !rd.IsAof() {
+			rd.rdb.Close()
+			rd.Close()
+			lines = append(lines, fmt.Sprintf("read %d err notexist", o))
+			continue
+		}
+		data, end := c08ReadAll(rd, o, r)
+		rd.aof.Close()
+		rd.Close()
+		lines = append(lines, fmt.Sprintf("read %d %s %s", o, end, vfutil.Hex(data)))
+		for k, b := range data {
+			if b != c08Src(p.salt, o+int64(k)) {
+				p.s.Violate("served-wrong-byte", fmt.Sprintf("%s: a verifying reader on the live index serves offset %d as %02x, the source sent %02x", what, o+int64(k), b, c08Src(p.salt, o+int64(k))), replay)
+				break
+			}
+		}
+		if alteredLeft >= 0 && o+int64(len(data)) > alteredLeft && len(data) > 0 && o < alteredLeft+int64(len(im[fmt.Sprintf("%d.aof", alteredLeft)])-headerSize) {
+			p.s.Violate("altered-segment-accepted", fmt.Sprintf("%s: closed segment %d.aof was altered while the writer is at %d, a verifying reader opened at %d delivered %d bytes reaching into it", what, alteredLeft, w.left, o, len(data)), replay)
+		}
+		p.s.Add("mon_bytes_checked", len(data))
+	}
+	for i := range lines {
+		lines[i] = fmt.Sprintf("#%d %s", p.opIdx, lines[i])
+	}
+	p.opIdx++
+	var zs []string
+	for _, z := range zombies {
+		zs = append(zs, strconv.FormatInt(z, 10))
+	}
+	p.s.Op(fmt.Sprintf("c8v %d %s %s %s", w.left, vfDash(strings.Join(zs, ",")), vfDash(strings.Join(ps, ",")), im.String()), lines...)
+	p.s.Count("live_verify_" + what)
+}
+
 // resume re-opens the image, continues the stream where the cache ends, runs
 // the collector with a small limit, and re-opens once more: at every stage every
 // byte served must be the source's byte (monitor only).
@@ -1174,7 +2102,7 @@ func (p *c08Parent) resume(im c08Image, script string) {
 		os.WriteFile(filepath.Join(dir, n), b, 0o666)
 	}
 	defer os.RemoveAll(root)
-	replay := map[string]interface{}{"image": im.String(), "at": "resume", "script": script}
+	replay := map[string]interface{}{"image": im.String(), "at": "resume", "script": script, "salt": p.salt}
 	check := func(st *Storer, stage string) {
 		l, r := st.GetOffsetRange()
 		if l < 0 || r <= l {
@@ -1236,6 +2164,51 @@ func (p *c08Parent) resume(im c08Image, script string) {
 			st.VerifGcLog()
 		}
 		check(st, "resumed")
+	}
+	// verifying readers while the resumed writer is attached: segments it closed pass, what
+	// the crash left torn is refused, its own segment is not verified; then a segment it closed
+	// is altered on disk
+	p.verifyLive(st, w, dir, script, "resumed", -1)
+	{
+		ents, _ := os.ReadDir(dir)
+		var closed []string
+		for _, e := range ents {
+			if b, err := os.ReadFile(filepath.Join(dir, e.Name())); err == nil && strings.HasSuffix(e.Name(), ".aof") &&
+				len(b) > headerSize && c08SegOk(b) && e.Name() != fmt.Sprintf("%d.aof", w.left) {
+				closed = append(closed, e.Name())
+			}
+		}
+		sort.Strings(closed)
+		if len(closed) > 0 {
+			name := closed[p.r.Intn(len(closed))]
+			fn := filepath.Join(dir, name)
+			orig, _ := os.ReadFile(fn)
+			alt := append([]byte(nil), orig...)
+			alt[headerSize+p.r.Intn(len(alt)-headerSize)] ^= byte(1 << p.r.Intn(8))
+			os.WriteFile(fn, alt, 0o666)
+			left, _ := strconv.ParseInt(strings.TrimSuffix(name, ".aof"), 10, 64)
+			p.verifyLive(st, w, dir, script, "resumed_altered", left)
+			os.WriteFile(fn, orig, 0o666)
+		}
+	}
+	// a segment whose header rewrite FAILED while the process lives (descriptor closed underneath
+	// the writer at its close: Seek fails, the close observer never runs): the index keeps
+	// answering hasWriter for it, a verifying reader passes through it; a new writer goes on
+	if p.r.Chance(1, 2) {
+		zl := w.left
+		if fi, err := os.Stat(w.filepath); err == nil && fi.Size() > headerSize {
+			w.file.Close()
+			w.Close()
+			if w2, err := st.GetAofWritter(nil, right); err == nil {
+				w = w2
+				n := 1 + p.r.Intn(20)
+				if err := w.write(c08SrcSeg(p.salt, right, n)); err == nil {
+					right += int64(n)
+					p.verifyLive(st, w, dir, script, "resumed_zombie", -1, zl)
+					check(st, "after failed header rewrite")
+				}
+			}
+		}
 	}
 	// the disk fails under the resumed writer (descriptor closed underneath it —
 	// stands for EIO): nothing of the chunk is written, and the range must not grow
